@@ -2649,6 +2649,9 @@ class sptensor:
                         (self.vals, value * np.ones((addsubs.shape[0], 1)))
                     )
                 else:
+                    # An index list may repeat an entry: store each subscript once
+                    _, first = np.unique(addsubs, axis=0, return_index=True)
+                    addsubs = addsubs[np.sort(first)]
                     self.subs = addsubs.astype(int)
                     self.vals = value * np.ones((addsubs.shape[0], 1))
             return
